@@ -1,6 +1,6 @@
 """C11 - see DESIGN.md §2 C11.  Deductive parts (contracts/) are added to this module as they are built; the bounded stand-in is checks/b11.py."""
 from vlib import env
-from checks.common import bounded_part, want, contract_sources, make_replay, t_oblig
+from checks.common import anchored, bounded_part, want, contract_sources, make_replay, t_oblig
 from pysym.harness import run_cases
 
 LEVEL = 'exploration'
@@ -19,9 +19,11 @@ def deductive(run):
 def main(run):
     env.setup()
     if want(run, 'T'):
+      with anchored(run, 'C11/T'):
         from contracts import tablelemmas
         tablelemmas.C11(run)
     if want(run, 'P') or want(run, 'T'):
+      with anchored(run, 'C11/P'):
         deductive(run)
     bounded_part(run, 'C11')
     return FINISH
